@@ -506,6 +506,28 @@ def search_failing_input(rep, S, bins, rng, tier, why):
                 found_any = True
             if found_any:
                 break
+    # (b') the same oracle sweep through the crate built WITHOUT its std feature (cfg-gated code paths)
+    if not found_any and not TEST_CONV:
+        okn, logn, npath = F.nostd_build("c01")
+        if okn:
+            n, fails, err = run_oracle(npath, oracle_lines(rng.fork("search_nostd"), tier, 0, for_search=True))
+            details["oracle_evaluations_no_std_build"] = n
+            uniq = []
+            for f in fails:
+                if f["pair"] not in [u["pair"] for u in uniq]:
+                    uniq.append(f)
+            for f in uniq[:4]:
+                f = minimise_failure(npath, f)
+                s, d = f["pair"]
+                got = {0: f["got"], 7: f"to_sample/from_sample disagree: {f['got']}", 8: f"panic kind {f['got']}"}[f["tag"]]
+                rep.violation(f"{s}_to_{d}_nostd", dict(
+                    kind="conversion does not produce the exact power-of-two rescaling when dasp_sample is built without its std feature", why=why,
+                    function=fn_name(S, s, d) if S is not None else f"conv::{s}::to_{d}", call=f"<{s} as Sample>::to_sample::<{d}>()",
+                    profile="dev profile, default-features = false (harness_nightly_nostd)",
+                    input=f["input"], got=got, expected=f["expected"], failing_inputs_in_that_sweep=f["nfail"],
+                    harness_line=f"vals {CODE[s]} {CODE[d]} {f['input']}", case=dict(s=s, d=d, mode=0, vals=[f["input"]]),
+                    replay=f"echo 'vals {CODE[s]} {CODE[d]} {f['input']}' | harness_nightly_nostd/target/debug/c01"))
+                found_any = True
     # (a) model level: regenerated model against the specification in coqc
     if S is not None and not found_any:
         found, err = model_search(S)
